@@ -73,7 +73,31 @@ RULE_ROUTER = ("each evaluation is one history of register/unregister operations
                "interleaved by scheduler and network with RTP and RTCP packets of every type, each routing decision compared with a "
                "dict-based reference router; non-trivial = >3 routed packets")
 
+RULE_DIFF = ("each evaluation is a PAIR of simulated runs of one workload under one recorded network/scheduler decision trace: "
+             "small sequence-number origins vs origins within a few hundred of the wrap point (SCTP TSN / re-config / stream "
+             "sequence numbers; RTP sequence numbers and timestamps in the jitter buffer and receiver statistics); the event logs, "
+             "sequence fields taken relative to their origins, must be identical; non-trivial = messages/frames/reports were "
+             "produced; distinct = distinct event-log digests")
+
+
+def _diff():
+    def build():
+        from ..engines import diff_sim
+        comps = dict(SCTP_COMPONENTS)
+        comps.update(HIST_COMPONENTS)
+        return {
+            "fn": diff_sim.run, "spec": {}, "level": "exploration", "quick_s": 45, "thorough_s": 600,
+            "rule": RULE_DIFF, "components": comps,
+            "state_measure": "as for the underlying engine of each pair (sctp_sim / history_sim)",
+            "assumptions": SCTP_ASSUME + ["the pair shares every harness decision: the second run replays the first run's recorded choice streams"],
+            "probes_expected": ["identical_logs", "tsn_wrap_crossed", "rtp_seq_wrap_crossed", "differential_pairs_sctp",
+                                "differential_pairs_jb", "differential_pairs_stats", "wrap_run_rr_after_sequence_wrap"],
+        }
+    return build
+
+
 REGISTRY = {
+    "C17": _diff(),
     "C10": _hist("jb", RULE_JB, "(ring occupancy quartile, frame released, key-frame request, order premise intact) after every add()",
                  probes=["frames_released", "pli", "threw_away_held_packets", "complete_premise_held", "late_100_or_more"]),
     "C15": _hist("bwe", RULE_BWE, "(detector hypothesis, rate-control state, estimate emitted) after every arrival",
